@@ -9,26 +9,21 @@
           runBTR r σ  agrees with  X86.step i st   on every register, flag, memory byte and the next address
 
   WHAT IS PROVED HERE (all of it universal over operand values / register contents / states; nothing is bounded):
-    (A) mirror + theorem, at the level of the lifter's shared helpers — every builder is assembled from them:
-        * flag formulas of add/adc/sub/sbb/cmp/inc/dec/neg (`set_zf/set_sf/set_of/set_cf`, the two-step carries) equal
-          the SDM definitions at 8/16/32/64 bits                                  — flags_*  (bit-vector level)
-        * the IL expressions those helpers build denote these formulas in every state  — il_zf … il_cf_add, add_flags_il,
-          sub_flags_il (the latter two: the complete flag set of add resp. sub/cmp equals `X86.addWith` / `X86.subWith`)
+    (A) mirror + theorem, INSTRUCTION LEVEL (`lift_correct_rr`): 64-bit mode, {mov add sub cmp and or xor} x (register,
+        register) at every operand size and shape — 64-bit, 32-bit (zero-extending), 16-bit, low byte, and the high-byte
+        registers ah/ch/dh/bh — every pair of registers (aliasing included), every state: `runBTR` of the mirrored
+        `BlockTranslationResult` agrees with `X86.step` on all sixteen general registers, CF ZF SF OF, memory and the
+        next address.  The driver compares the mirror SYNTACTICALLY with falcon's dumped IL on every generated case of
+        the class; a difference is a broken correspondence.
+    (A) at the level of the lifter's shared helpers (every builder is assembled from them):
+        * flag formulas of add/adc/sub/sbb/cmp/inc/dec/neg equal the SDM definitions at 8/16/32/64 bits  — flags_*
+        * the IL expressions those helpers build denote these formulas in every state — il_*, add_flags_il, sub_flags_il
         * shift CF/result formulas of shl/shr/sar equal the SDM's for every masked count  — shift_*
         * `cc_condition` equals the SDM condition table for all 16 codes               — il_cc_condition
-        * sub-register algebra of `X86Register::get/set` (64/32/16/8-bit, high byte): bit-vector level (subreg_*) and
-          IL level in 64-bit mode (il_reg_get, il_reg_set)
-        For the class {mov add sub cmp and or xor} x (register, register) the mirror `X86Lift.liftRR` reproduces the
-        whole `BlockTranslationResult`; the driver compares it SYNTACTICALLY with falcon's dumped IL on every case of
-        the class (both modes, all sub-register shapes) — a difference is a broken correspondence.
+        * sub-register algebra of `X86Register::get/set`: bit-vector level (subreg_*) and IL level (il_reg_get/set)
     (B) none (no regenerated per-encoding theorems).
     (C) differential only — falcon's executor vs Lean IL semantics vs this specification vs the host CPU (amd64):
-        every other mnemonic and operand form (memory operands, immediates, shifts/rotates as whole instructions,
-        mul/div, bit tests, string instructions, stack and control transfer, SSE subset); listed as
-        `unproved_mnemonics` in the evidence.
-  MISSING for `lift_correct` even on the mirrored class: the plumbing from "each emitted expression denotes X" to
-  `runBTR` of the one-block graph (sequencing of the assignments through `State.set`, the temporaries, and the
-  `Rel σ st` frame).  It is stated above and NOT claimed; the theorems below are named for what they state.
+        every other mnemonic and operand form; 32-bit mode for every form; listed as `unproved_mnemonics` in the evidence.
 -/
 import FalconProofs.C01.Flags
 import FalconProofs.C01.Shifts
@@ -36,6 +31,7 @@ import FalconProofs.C01.SubReg
 import FalconProofs.C01.FlagsIL
 import FalconProofs.C01.Cond
 import FalconProofs.C01.RegIL
+import FalconProofs.C01.Alu
 
 namespace Falcon.C01.Props
 open Falcon Falcon.X86 Falcon.X86Lift Falcon.Const Falcon.Sem Falcon.C01
@@ -180,7 +176,56 @@ theorem il_reg_set (σ : State) (r : GReg) (hr : Shape r) (x : BitVec 64) (ve : 
     (h : σ.get (fullName .amd64 r.idx) = some (ofBV x)) (hv : Val σ ve v) :
     ∃ e, regSetExpr .amd64 r ve = .ok e ∧ Val σ e (mergeReg x r (v.setWidth 64)) := regSet_value σ r hr x ve v h hv
 
+/-! ### instruction level: option (A) `lift_correct` for the register-register class, 64-bit mode -/
+
+/-- `StateOK`: the IL state defines every architectural register and CF ZF SF OF at their widths — i.e. it holds
+    some machine state `st` (`Abs σ st`: rax…r15 as 64-bit scalars, the four flags as 1-bit scalars, memory = st.mem) -/
+def StateOK (σ : State) : Prop := ∃ st, Abs σ st
+
+/-- **lift_correct_rr.**  For every mnemonic of {mov add sub cmp and or xor}, every pair of general registers of equal
+    width in any of the five shapes (64-bit, 32-bit, 16-bit, low byte, HIGH byte ah/ch/dh/bh — `Shape`), every address and
+    length, and every IL state `σ` holding a machine state `st`:
+    the mirror produces a `BlockTranslationResult` (no sort error) and running it with the IL semantics (`runBTR`: what
+    falcon's executor does, property C07) ends at `address + length` in a state `σ'` such that the x86 specification's
+    result `st'` for the same instruction from `st` is defined (no trap, nothing undefined) and
+      * every general register of `σ'` is the register of `st'`   (ALL sixteen, not only the destination),
+      * CF ZF SF OF of `σ'` are those of `st'`,
+      * memory is unchanged and equals the specification's.
+    The mirror is compared syntactically with falcon's dumped IL on every generated case of the class (driver). -/
+theorem lift_correct_rr {m : String} (hm : m ∈ rrMnemonics) {d s : GReg} (hd : Shape d) (hs : Shape s)
+    (hb : s.bits = d.bits) (hdi : d.idx < 16) (hsi : s.idx < 16) (addr len asz : Nat) (haddr : addr + len < 2 ^ 64)
+    (σ : State) (st : St) (hok : Abs σ st) :
+    ∃ r σ' st', liftRR .amd64 m addr len d s = .ok r ∧
+      runBTR r σ = .next σ' [addr + len] ∧
+      X86.step (insRR m addr len asz d s) st = .ok st' (addr + len) [] ∧
+      (∀ i, i < 16 → σ'.get (rName i) = some (ofBV (st'.gpr i))) ∧
+      σ'.get "CF" = some (ofBV (BitVec.ofBool st'.cf)) ∧ σ'.get "ZF" = some (ofBV (BitVec.ofBool st'.zf)) ∧
+      σ'.get "SF" = some (ofBV (BitVec.ofBool st'.sf)) ∧ σ'.get "OF" = some (ofBV (BitVec.ofBool st'.of)) ∧
+      σ'.mem = σ.mem ∧ σ'.mem = st'.mem := by
+  obtain ⟨r, hr, σ', st', h1, h2, h3, h4⟩ := lift_rr hm hd hs hb hdi hsi addr len asz haddr σ st hok
+  exact ⟨r, σ', st', hr, h1, h2, h3.gpr, h3.cf, h3.zf, h3.sf, h3.of, h4, h3.mem⟩
+
+/-- the same for every `StateOK` state (the machine state it holds is the one the specification starts from) -/
+theorem lift_correct_rr_stateOK {m : String} (hm : m ∈ rrMnemonics) {d s : GReg} (hd : Shape d) (hs : Shape s)
+    (hb : s.bits = d.bits) (hdi : d.idx < 16) (hsi : s.idx < 16) (addr len asz : Nat) (haddr : addr + len < 2 ^ 64)
+    (σ : State) (hok : StateOK σ) :
+    ∃ st r, Abs σ st ∧ liftRR .amd64 m addr len d s = .ok r ∧ Agrees r σ (insRR m addr len asz d s) st := by
+  obtain ⟨st, ha⟩ := hok
+  exact ⟨st, (lift_rr hm hd hs hb hdi hsi addr len asz haddr σ st ha).choose, ha,
+    (lift_rr hm hd hs hb hdi hsi addr len asz haddr σ st ha).choose_spec⟩
+
 /-! ### non-vacuity -/
+
+/-- a state that is `StateOK`: all sixteen registers and the four flags defined, holding the all-zero machine state -/
+def σ₀ : State :=
+  { scalars := (gprNames.map fun n => (n, ofBV 0#64)) ++ ["CF", "ZF", "SF", "OF"].map fun n => (n, ofBV (BitVec.ofBool false)) }
+
+example : StateOK σ₀ :=
+  ⟨default, { gpr := by decide, cf := by decide, zf := by decide, sf := by decide, of := by decide, mem := rfl }⟩
+
+/-- the class is inhabited: `add bh, cl` (high byte destination) meets the hypotheses of `lift_correct_rr` -/
+example : ("add" ∈ rrMnemonics) ∧ Shape ⟨3, 8, 8⟩ ∧ Shape ⟨1, 8, 0⟩ := ⟨by decide, .h8 3, .r8 1⟩
+
 
 /-- a state holding rbx and a constant: the hypotheses of `il_reg_set` for `mov bh, 0xb0` are met -/
 example : ∃ (σ : State), σ.get (fullName .amd64 3) = some (ofBV 0x30ba02d9baf74b65#64) ∧ Val σ (Expr.ec 0xb0 8) (0xb0#8) :=
